@@ -17,7 +17,7 @@ func init() {
 		Doc: "shared-state inventory: every package-level variable of the module is enumerated with every store, address-taking and mutation through a loaded reference; " +
 			"stores exist only in the package initialiser or in package internal/monitor, where each is dominated by the true edge of `m != nil` (or of `param != nil` for the value stored into m); " +
 			"no address of a package-level variable escapes; no initialiser places a non-nil reference (pointer, map, slice, func, chan) into a package-level variable",
-		Floor: 5,
+		Floor: 6,
 		Ctl:   []string{"internal__phase4__glob1.go.txt"},
 		Run:   runGlob1,
 	})
@@ -27,7 +27,7 @@ func init() {
 			"under the m != nil guards only Monitor.Log and Phase()/String() of the algorithm values are invoked, and those have empty modification sets; the options.monitor field flows only into monitor.Set",
 		Floor: 8,
 		Ctl:   []string{"internal__monitor__mon1.go.txt", "internal__phase1__mon1caller.go.txt"}, MinCtl: 1,
-		Run:   runMon1,
+		Run: runMon1,
 	})
 	register(&Rule{
 		ID:    "ORD-1",
@@ -39,7 +39,7 @@ func init() {
 	register(&Rule{
 		ID:    "OWN-2",
 		Doc:   "read confinement: packages phase1, phase2, phase3, connected and preprocessor never load Node/Layer X,Y,W,H nor Params.NodeSpacing/LayerSpacing (one obligation per function of those packages)",
-		Floor: 60,
+		Floor: 75,
 		Ctl:   []string{"internal__phase3__own2.go.txt"},
 		Run:   runOwn2,
 	})
